@@ -8,6 +8,7 @@ harness once per feasible path (decision-vector scheme).  The very same harness
 is run again in *concrete* mode (plain python numbers, no proxies, no shims) to
 replay a counter-model natively.
 """
+import os
 import math
 import time
 import random
@@ -391,7 +392,7 @@ def _fmt(detail):
     try:
         if callable(detail):
             detail = detail()
-        return str(detail)[:2000]
+        return str(detail)[:int(os.environ.get("PVC_DETAIL_MAX", "2000"))]
     except BaseException as e:  # noqa
         return "<detail failed: %r>" % (e,)
 
